@@ -1,17 +1,163 @@
-"""C34 — RFC 1982 serial arithmetic: real SerialNumber vs Lean model, and the property oracle."""
+"""C34 — RFC 1982 serial arithmetic: real SerialNumber vs Lean model, and the property oracle.
+
+Two case shapes:
+
+* pair   {"bits", "a", "b"[, "ca", "cb"]}: two objects of one width; all six operations between them, and
+  the REAL object returned by `x + y` is compared with `x` (it must be usable: same ring, greater than x).
+  "ca"/"cb" pick the operand classes (0 SerialNumber, 1 a subclass, 2 a subclass of that subclass).
+* prog   {"objs": [[number, bits, cls], ...], "ops": [[kind, i, j], ...]}: a HISTORY — several objects
+  (several widths, shared numbers, subclasses) are constructed first and kept alive, then operations run
+  between slots; `add` / `iadd` (`s += n`) append their result as a new slot, so later operations use
+  objects produced by earlier ones (chains of additions, x op x, results against operands).
+
+Every constructor call gets its own `int` object for the width (equal widths are equal numbers, not
+identical objects).
+"""
+import operator
+
 from twisted.names._rfc1982 import SerialNumber
 
-HEADLINE = "TwistedProps.C34.trichotomy_except_half / add_gt"
-RULE = ("all pairs (a,b) for widths 1..W (W=6 quick, 8 thorough) + random pairs for 16/32/64 bits incl. "
-        "out-of-ring constructor arguments; distinct = (bits class, relation class of (a,b), add outcome)")
+HEADLINE = "TwistedProps.C34.trichotomy_except_half / add_gt / run_rfc"
+RULE = ("pairs: all (a,b) for widths 1..W (W=6 quick, 8 thorough) + random pairs for 16/32/64 bits, random widths 9..70 and "
+        "BIG widths (128, 256, 257, 300, 512, 1024, 2048, random 71..4096), incl. out-of-ring constructor arguments and "
+        "subclass operands; programs: 2..6 objects of one or two widths (numbers shared between objects and widths, "
+        "subclasses), 2..8 operations eq/lt/gt/le/ge/add/iadd between slots incl. x op x and results of earlier additions; "
+        "distinct = (shape, width class, relation class / operation kinds and outcomes, operand classes)")
 TRUSTED = ["harness/py2lean.py (translator for _rfc1982.py; Generated.Rfc1982 = model proved by rfl/simp)"]
 ASSUMES = ["serialBits >= 1 (2**(bits-1) is a float for bits = 0)",
-           "mixed-width / non-SerialNumber operands (NotImplemented paths) are checked only by the oracle"]
+           "operands are SerialNumber instances (subclasses included) built from ints; operations between objects of "
+           "DIFFERENT widths and non-SerialNumber operands are outside the statement: the model says TypeError "
+           "(False for ==) for mixed widths and the tie compares that, the oracle does not judge them",
+           "the object returned by an addition is observed through int(), its _serialBits (tie only) and its comparisons "
+           "with the left operand (oracle); its class is not observed"]
 
+
+class _Sub(SerialNumber):
+    """an application subclass (isinstance(x, SerialNumber) holds, type(x) is not SerialNumber)"""
+
+
+class _Sub2(_Sub):
+    pass
+
+
+_CLS = [SerialNumber, _Sub, _Sub2]
+_CMP = {"eq": operator.eq, "lt": operator.lt, "gt": operator.gt, "le": operator.le, "ge": operator.ge}
+_BIG = [128, 256, 257, 300, 512, 1024, 2048]
+
+
+def _mk(num, bits, cls=0):
+    # int(str(..)) : a fresh int object per call (CPython shares only -5..256)
+    return _CLS[cls](num, int(str(bits)))
+
+
+def _b(x):
+    return "1" if x is True else "0" if x is False else "?"
+
+
+def _c(f, x, y):
+    try:
+        return _b(f(x, y))
+    except TypeError:
+        return "T"
+
+
+def _flags(r, x):
+    return _c(operator.gt, r, x) + _c(operator.lt, r, x) + _c(operator.eq, r, x)
+
+
+def _w(o):
+    return getattr(o, "_serialBits", "?")
+
+
+# ------------------------------------------------------------------------------------------ cases
 
 def corpus():
     return [{"bits": 8, "a": 0, "b": 128}, {"bits": 8, "a": 255, "b": 0}, {"bits": 1, "a": 0, "b": 1},
-            {"bits": 32, "a": 2**32 + 5, "b": -1}, {"bits": 8, "a": 250, "b": 100}, {"bits": 8, "a": 3, "b": 127}]
+            {"bits": 32, "a": 2**32 + 5, "b": -1}, {"bits": 8, "a": 250, "b": 100}, {"bits": 8, "a": 3, "b": 127},
+            # mutation audit: result object of an addition, subclass operands, big widths, histories
+            {"bits": 8, "a": 250, "b": 100, "ca": 1, "cb": 0}, {"bits": 16, "a": 3, "b": 5, "ca": 0, "cb": 2},
+            {"bits": 300, "a": 3, "b": 5}, {"bits": 2048, "a": 2**2047 + 1, "b": 1}, {"bits": 257, "a": 0, "b": 2**256},
+            {"objs": [[3, 8, 0], [3, 16, 0], [5, 8, 0]], "ops": [["lt", 0, 2], ["add", 0, 2], ["gt", 3, 0]]},
+            {"objs": [[250, 8, 0], [200, 8, 0]], "ops": [["iadd", 0, 1], ["iadd", 0, 0], ["eq", 0, 0]]},
+            {"objs": [[250, 8, 0], [100, 8, 0]], "ops": [["iadd", 0, 1], ["gt", 2, 0], ["iadd", 2, 1], ["lt", 0, 3]]},
+            {"objs": [[1, 8, 1], [2, 8, 0], [1, 16, 2]], "ops": [["le", 0, 1], ["ge", 1, 0], ["eq", 0, 2], ["lt", 0, 2], ["add", 2, 0]]},
+            {"objs": [[7, 300, 0], [7, 300, 1], [2**299, 300, 0]], "ops": [["eq", 0, 1], ["add", 0, 1], ["add", 0, 2], ["lt", 0, 2]]}]
+
+
+def _truth_objs(objs):
+    return [(n % 2**w, w) for n, w, _ in objs]
+
+
+def _expected(kind, x, y):
+    """RFC 1982 on two truth slots (value, bits) of the same width: bool for comparisons,
+    (value, bits) | 'A' for additions."""
+    (a, w), (b, _) = x, y
+    M, H = 2**w, 2 ** (w - 1)
+    if kind in ("add", "iadd"):
+        return ((a + b) % M, w) if b <= H - 1 else "A"
+    d = (b - a) % M
+    eq, lt, gt = d == 0, 0 < d < H, d > H
+    return {"eq": eq, "lt": lt, "gt": gt, "le": eq or lt, "ge": eq or gt}[kind]
+
+
+def _number(rng, w, base):
+    M, H = 2**w, 2 ** (w - 1)
+    k = rng.choice([0, 0, 1, 1, 2, H - 1, H, H + 1, M - 1, rng.randrange(M), rng.randrange(M)])
+    n = (base + k) % M if rng.random() < 0.8 else k
+    r = rng.random()
+    return n + M if r < 0.05 else n - M if r < 0.1 else n
+
+
+def _width(rng):
+    r = rng.random()
+    if r < 0.35:
+        return rng.randint(1, 8)
+    if r < 0.6:
+        return rng.choice([16, 32, 64])
+    if r < 0.75:
+        return rng.randint(9, 70)
+    return rng.choice(_BIG + [rng.randint(71, 4096)])
+
+
+def _program(rng):
+    w1 = _width(rng)
+    widths = [w1]
+    if rng.random() < 0.35:
+        widths.append(rng.choice([w1 + 1, max(1, w1 - 1), 2 * w1, _width(rng)]))
+    sub = rng.random() < 0.45
+    base = rng.randrange(2**w1)
+    pool = []
+    objs = []
+    for _ in range(rng.randint(2, 6)):
+        w = widths[0] if rng.random() < 0.7 else rng.choice(widths)
+        # numbers are shared between objects (and widths) about half of the time
+        n = rng.choice(pool) if pool and rng.random() < 0.45 else _number(rng, w, base % 2**w)
+        pool.append(n)
+        objs.append([n, w, rng.choice([0, 1, 2]) if sub else 0])
+    truth = _truth_objs(objs)
+    ops = []
+    for _ in range(rng.randint(2, 8)):
+        kind = rng.choice(["eq", "lt", "gt", "le", "ge", "add", "add", "iadd", "iadd"])
+        live = [k for k, t in enumerate(truth) if t is not None]
+        i = rng.choice(live)
+        same = [k for k in live if truth[k][1] == truth[i][1]]
+        if kind in ("add", "iadd") and rng.random() < 0.6:
+            H = 2 ** (truth[i][1] - 1)
+            small = [k for k in same if truth[k][0] <= H - 1]
+            same = small or same
+        r = rng.random()
+        j = i if r < 0.12 else rng.choice(same) if r < 0.9 else rng.choice(live)
+        if rng.random() < 0.5 and len(truth) > len(objs) and kind not in ("add", "iadd"):
+            # compare the most recent result with something
+            last = max(k for k in live)
+            if last >= len(objs):
+                i, j = (last, j) if rng.random() < 0.5 else (i, last)
+        ops.append([kind, i, j])
+        if kind in ("add", "iadd"):
+            x, y = truth[i], truth[j]
+            e = _expected(kind, x, y) if x[1] == y[1] else "T"
+            truth.append(e if isinstance(e, tuple) else None)
+    return {"objs": objs, "ops": ops}
 
 
 def generate(rng, tier):
@@ -22,35 +168,127 @@ def generate(rng, tier):
                 yield {"bits": bits, "a": a, "b": b}
     n = 3000 if tier == "quick" else 60000
     for _ in range(n):
-        bits = rng.choice([16, 32, 64, rng.randint(9, 70)])
+        bits = rng.choice([16, 32, 64, rng.randint(9, 70), rng.choice(_BIG + [rng.randint(71, 4096)])])
         M = 2**bits
         a = rng.choice([rng.randrange(M), rng.randrange(-M, 2 * M), 0, M - 1, M // 2])
         k = rng.choice([0, 1, M // 2, M // 2 - 1, M // 2 + 1, rng.randrange(M)])
         b = rng.choice([rng.randrange(M), (a + k) % M, (a - k) % M, a + k])
-        yield {"bits": bits, "a": a, "b": b}
+        c = {"bits": bits, "a": a, "b": b}
+        if rng.random() < 0.3:
+            c["ca"], c["cb"] = rng.choice([(0, 1), (1, 0), (1, 1), (1, 2), (2, 1), (0, 2)])
+        yield c
+    # small widths with subclass operands (exhaustive pairs use the base class only)
+    for _ in range(300 if tier == "quick" else 3000):
+        bits = rng.randint(1, 8)
+        M = 2**bits
+        yield {"bits": bits, "a": rng.randrange(-M, 2 * M), "b": rng.randrange(M),
+               "ca": rng.choice([0, 1, 2]), "cb": rng.choice([1, 2])}
+    for _ in range(3000 if tier == "quick" else 40000):
+        yield _program(rng)
 
+
+# ------------------------------------------------------------------------------------------ tie
 
 def model_line(c):
+    if "objs" in c:
+        return ("P " + ",".join(f"{n}:{w}" for n, w, _ in c["objs"]) + " "
+                + ",".join(f"{k}:{i}:{j}" for k, i, j in c["ops"]))
     return f"{c['bits']} {c['a']} {c['b']}"
 
 
-def _b(x):
-    return "1" if x is True else "0" if x is False else "?"
+def _run_prog(c):
+    slots = [_mk(n, w, k) for n, w, k in c["objs"]]
+    out = ["c=" + ",".join(f"{int(o)}:{_w(o)}" for o in slots)]
+    for kind, i, j in c["ops"]:
+        x = slots[i] if i < len(slots) else None
+        y = slots[j] if j < len(slots) else None
+        adding = kind in ("add", "iadd")
+        if x is None or y is None:
+            out.append("-")
+            if adding:
+                slots.append(None)
+            continue
+        if not adding:
+            out.append(_c(_CMP[kind], x, y))
+            continue
+        try:
+            if kind == "add":
+                r = x + y
+            else:
+                r = x
+                r += y
+        except ArithmeticError:
+            out.append("A")
+            slots.append(None)
+        except TypeError:
+            out.append("T")
+            slots.append(None)
+        else:
+            # flags: the result against the object that was the left operand (still held in slots[i])
+            out.append(f"{int(r)}:{_w(r)}:{_flags(r, x)}")
+            slots.append(r)
+    out.append("f=" + ",".join("-" if o is None else f"{int(o)}:{_w(o)}" for o in slots))
+    return " ".join(out)
 
 
 def run_impl(c):
-    x, y = SerialNumber(c["a"], c["bits"]), SerialNumber(c["b"], c["bits"])
+    if "objs" in c:
+        return _run_prog(c)
+    x, y = _mk(c["a"], c["bits"], c.get("ca", 0)), _mk(c["b"], c["bits"], c.get("cb", 0))
     try:
-        s = str(int(x + y))
+        r = x + y
+        s = f"{int(r)} {_w(r)} {_flags(r, x)}"
     except ArithmeticError:
-        s = "ArithmeticError"
+        s = "ArithmeticError - ---"
     return f"{int(x)} {int(y)} {_b(x == y)} {_b(x < y)} {_b(x > y)} {_b(x <= y)} {_b(x >= y)} {s}"
+
+
+# ------------------------------------------------------------------------------------------ oracle
+
+def _oracle_prog(c, out):
+    f = out.split()
+    if len(f) != len(c["ops"]) + 2 or not f[0].startswith("c=") or not f[-1].startswith("f="):
+        return {"key": "malformed", "detail": out[:200]}
+    truth = _truth_objs(c["objs"])
+    stored = [t.split(":")[0] for t in f[0][2:].split(",")]
+    if stored != [str(v) for v, _ in truth]:
+        return {"key": "constructor", "detail": f"stored {stored} expected {[v for v, _ in truth]}"}
+    for (kind, i, j), tok in zip(c["ops"], f[1:-1]):
+        x = truth[i] if i < len(truth) else None
+        y = truth[j] if j < len(truth) else None
+        adding = kind in ("add", "iadd")
+        if x is None or y is None or x[1] != y[1]:
+            if adding:                                  # outside the statement: no demand
+                truth.append(None)
+            continue
+        e = _expected(kind, x, y)
+        where = f"{kind}({i},{j}) on {x[0]},{y[0]} of {x[1]} bits"
+        if not adding:
+            if tok != _b(e):
+                return {"key": "ordering" if kind in ("eq", "lt", "gt") else "le-ge",
+                        "detail": f"{where}: got {tok} expected {_b(e)}"}
+            continue
+        if e == "A":
+            truth.append(None)
+            if tok != "A":
+                return {"key": "add-range", "detail": f"{where}: accepted / not refused with ArithmeticError: {tok}"}
+            continue
+        truth.append(e)
+        p = tok.split(":")
+        if len(p) != 3 or p[0] != str(e[0]):
+            return {"key": "add", "detail": f"{where}: got {tok} expected value {e[0]}"}
+        want = "100" if y[0] > 0 else "001"
+        if p[2] != want:
+            return {"key": "add-gt", "detail": f"{where}: result >,<,== left operand is {p[2]} expected {want}"}
+    return None
 
 
 def oracle(c, out):
     """RFC 1982 §3.1/§3.2 evaluated independently on the implementation's answers."""
     if out.startswith("!"):
         return {"key": "raises", "detail": out}
+    if "objs" in c:
+        return _oracle_prog(c, out)
     bits = c["bits"]
     M, H = 2**bits, 2 ** (bits - 1)
     f = out.split()
@@ -58,6 +296,8 @@ def oracle(c, out):
     if [int(f[0]), int(f[1])] != [a, b]:
         return {"key": "constructor", "detail": f"stored {f[0]},{f[1]} expected {a},{b}"}
     eq, lt, gt, le, ge = (x == "1" for x in f[2:7])
+    if any(x not in "01" for x in f[2:7]):
+        return {"key": "ordering", "detail": f"bits={bits} a={a} b={b}: non-boolean answers {f[2:7]}"}
     d = (b - a) % M
     exp_eq, exp_lt, exp_gt = d == 0, 0 < d < H, d > H
     if (eq, lt, gt) != (exp_eq, exp_lt, exp_gt):
@@ -67,6 +307,10 @@ def oracle(c, out):
     if b <= H - 1:
         if f[7] != str((a + b) % M):
             return {"key": "add", "detail": f"bits={bits} {a}+{b} gave {f[7]}"}
+        # the object that `x + y` really returned, against x
+        want = "100" if b > 0 else "001"
+        if f[9] != want:
+            return {"key": "add-gt", "detail": f"bits={bits} {a}+{b}: returned object >,<,== s is {f[9]} expected {want}"}
         if b > 0:
             s = SerialNumber(int(f[7]), bits)
             if not (s > SerialNumber(a, bits)) or (s < SerialNumber(a, bits)):
@@ -76,21 +320,67 @@ def oracle(c, out):
     return None
 
 
+# ------------------------------------------------------------------------------------------ evidence
+
+def _wclass(bits):
+    return "<=8" if bits <= 8 else str(bits) if bits in (16, 32, 64) else "9-70" if bits <= 70 else "big"
+
+
 def tag(c, out):
+    if "objs" in c:
+        ws = sorted({w for _, w, _ in c["objs"]})
+        kinds = {k for k, _, _ in c["ops"]}
+        toks = out.split()[1:-1] if not out.startswith("!") else []
+        feats = [_wclass(ws[0]), "mixed" if len(ws) > 1 else "one",
+                 "sub" if any(k for _, _, k in c["objs"]) else "base",
+                 "cmp" if kinds & set(_CMP) else "", "add" if "add" in kinds else "", "iadd" if "iadd" in kinds else "",
+                 "self" if any(i == j for _, i, j in c["ops"]) else "",
+                 "chain" if any(max(i, j) >= len(c["objs"]) for _, i, j in c["ops"]) else "",
+                 "A" if "A" in toks else "", "T" if "T" in toks else ""]
+        return "prog:" + ":".join(x for x in feats if x)
     bits = c["bits"]
     M, H = 2**bits, 2 ** (bits - 1)
     d = (c["b"] - c["a"]) % M
     rel = "eq" if d == 0 else "half" if d == H else "lt" if d < H else "gt"
     wrap = "wrap" if (c["a"] % M) + (c["b"] % M) >= M else "nowrap"
     oor = "oor" if not (0 <= c["a"] < M and 0 <= c["b"] < M) else "in"
-    return f"bits{'<=8' if bits <= 8 else bits if bits in (16, 32, 64) else 'other'}:{rel}:{wrap}:{oor}:{'err' if out.endswith('Error') else 'ok'}"
+    sub = ":sub" if c.get("ca") or c.get("cb") else ""
+    return f"bits{_wclass(bits)}:{rel}:{wrap}:{oor}:{'err' if 'Error' in out else 'ok'}{sub}"
+
+
+def shrink(c):
+    if "objs" not in c:
+        if c.get("ca") or c.get("cb"):
+            yield {"bits": c["bits"], "a": c["a"], "b": c["b"]}
+        return
+    ops = c["ops"]
+    # drop the last operation; drop one comparison (comparisons add no slot, indices stay valid)
+    if len(ops) > 1:
+        yield {"objs": c["objs"], "ops": ops[:-1]}
+        for k, (kind, _, _) in enumerate(ops):
+            if kind in _CMP:
+                yield {"objs": c["objs"], "ops": ops[:k] + ops[k + 1:]}
+    # drop the last object when nothing refers to it (result slots shift down by one)
+    n = len(c["objs"])
+    if n > 1 and all(i != n - 1 and j != n - 1 for _, i, j in ops):
+        yield {"objs": c["objs"][:-1],
+               "ops": [[k, i - (i >= n), j - (j >= n)] for k, i, j in ops]}
+    if any(k for _, _, k in c["objs"]):
+        yield {"objs": [[a, w, 0] for a, w, _ in c["objs"]], "ops": ops}
+
 
 MANIFEST = {
-    "text": "27 Lean theorems (TwistedProps/C34.lean) for every width bits>=1 and all ring values: trichotomy except half-ring apart, "
-            "le/ge agree, add = (s+n) mod 2^bits, add_gt, add refuses n > 2^(bits-1)-1; the definitions are regenerated from "
-            "_rfc1982.py by the translator on every run and proved equal to the model (rfl), and the model is run against the real "
-            "SerialNumber exhaustively for widths 1..6 (quick) / 1..8 (thorough) plus random 16/32/64-bit pairs.",
-    "note": "trusts Lean kernel, harness/py2lean.py, CPython int semantics; NotImplemented paths for foreign operands are outside the model",
-    "technique": "Lean 4 proof over translator-regenerated definitions + exhaustive small-width differential tie",
+    "text": "Lean theorems (TwistedProps/C34.lean) for every width bits>=1 and all ring values: trichotomy except half-ring apart, "
+            "le/ge agree, add = (s+n) mod 2^bits, add_gt, add refuses n > 2^(bits-1)-1; lifted to HISTORIES over several objects "
+            "(run_frozen: no operation changes an existing object; run_rfc: every comparison / addition in any program between "
+            "objects of one width gives the RFC 1982 answer whatever happened before; addMany_sum: a chain of additions yields "
+            "(s + n1 + ... + nk) mod 2^bits); the definitions are regenerated from _rfc1982.py by the translator on every run and "
+            "proved equal to the model (rfl), and the model is run against the real SerialNumber exhaustively for widths 1..6 "
+            "(quick) / 1..8 (thorough), on random 16/32/64-bit, 9..70-bit and big-width (128..4096) pairs with subclass operands, "
+            "observing the object an addition really returns, and on random programs (objects of several widths kept alive, "
+            "shared numbers, subclasses, x op x, += , chains through returned objects).",
+    "note": "trusts Lean kernel, harness/py2lean.py, CPython int semantics; mixed-width operations are tied to the model "
+            "(TypeError / False) but not judged by the oracle; non-SerialNumber operands are outside the model",
+    "technique": "Lean 4 proof over translator-regenerated definitions + exhaustive small-width differential tie + program tie",
     "design_ref": "DESIGN.md §7.6 C34",
 }
